@@ -55,6 +55,29 @@ def ovf_handler(prog):
     return _memo(prog, "ovf", find)
 
 
+def flag_writer(prog):
+    """the method of Fxp that raises the overflow / underflow flags: the overflow handler itself, or - when the handler no longer stores them -
+    the one other method (not __init__ / reset) that does (the range tests were factored out of the handler)"""
+    def find():
+        h = ovf_handler(prog)
+
+        def stores(m):
+            for n in ast.walk(m.node):
+                if isinstance(n, ast.Assign):
+                    for t in n.targets:
+                        sk = status_key(t)
+                        if sk and sk[1] in ("overflow", "underflow"):
+                            return True
+            return False
+        if stores(h):
+            return h
+        cands = [m for m in fxp_methods(prog) if m.name not in ("__init__", "reset") and m is not h and stores(m)]
+        if len(cands) == 1:
+            return cands[0]
+        return h
+    return _memo(prog, "flagw", find)
+
+
 def rounder(prog):
     def find():
         f = prog.func("objects.Fxp._round", required=False)
